@@ -164,7 +164,7 @@ def run(o, ctx, tier, seed, replay=None):
 
 
     # streams kept by the coverage- and behaviour-guided generator: model comparison + the statement where the strict reading is clear
-    fz = fuzz_cases(o, ctx, "body", t, seed)
+    fz = fuzz_cases(o, ctx, "body", tier, seed)
     fimpl, _ = diff_run(o, ctx, fz, nontrivial=lambda c, a: True, tags=lambda c, a: "fuzz:" + c.split()[1].split(":")[0] + ":" + (a.split()[2] if len(a.split()) > 2 else "?"))
     for c, a in zip(fz, fimpl):
         why = oracle_fuzz(c, a)
@@ -203,7 +203,7 @@ def run(o, ctx, tier, seed, replay=None):
             o.mismatches.append({"case": c, "impl": a[:200], "model": model[i][:200]})
 
 
-register("C06", lean=["Khttp.Props.C06", "Khttp.Props.C06Contract", "Khttp.Props.C07BodySkeleton"], run=run,
+register("C06", lean=["Khttp.Props.C06", "Khttp.Props.C06Contract"], soft_lean=["Khttp.Props.C07BodySkeleton"], run=run,
          rule="BODY cases: payload lengths {0,1,2,3,5,8,17,100,4095,4096,4097,9000,random} x {fixed, chunked with random chunkings, mixed-case / zero-padded sizes, extensions, trailers} x "
               "{valid + trailing bytes, every kind of truncation point, single-byte corruption of a size digit or of the CRLF after chunk data} x random leftover|stream split x stream segmentations "
               "{all, 1-byte, random} x caller schedules {1, 2, 7, 1024, 4096, 8192, random} x {Read, BufRead, drop-drain}. distinct_nontrivial = all distinct case lines.",
